@@ -1,6 +1,8 @@
 """C16  Minimum-variance spectrum equals T / (e^H R^-1 e)."""
 import numpy as np
 
+import single
+
 import proto
 from common import gen_data, rel
 
@@ -165,7 +167,10 @@ def _ok(x, m):
     return rho >= 1e-7 * float(np.mean(np.abs(np.asarray(x)) ** 2))
 
 
+KINDS["single"] = single.kind("C16")
+
 def gen(rng, nrng, tier):
+    yield from single.gen("C16", nrng, tier)
     n = 90 if tier == "quick" else 1200
     kinds = ["noise", "tone", "int", "trend"]
     nffts_seen = [32, 33, 40, 64, 65]
